@@ -573,8 +573,8 @@ func (w *World) run(steps int) {
 	}
 	for s := 0; s < steps; s++ {
 		k := r.Intn(100)
-		if w.mode == "swap" && r.Chance(1, 3) {
-			w.yieldSwap()
+		if w.mode == "swap" && r.Chance(1, 2) {
+			w.swapStep()
 			continue
 		}
 		switch {
@@ -605,12 +605,9 @@ func (w *World) run(steps int) {
 				case 2:
 					ts, tick = w.now+1+int64(r.U64n(uint64(w.set.Interval-1))), "unaligned"
 				case 3:
-					// a tick dated before the tip (the engine never delivers one; AddBlock refuses it).
-					// Only with an empty pool: in that refusal branch the Go pool slice is left in a
-					// state (shifted backing array) that the model does not describe.
-					if len(w.host.Pool.Transactions()) == 0 {
-						ts, tick = w.now-w.set.Interval, "backwards"
-					}
+					// a tick dated before the tip (the engine never delivers one; AddBlock refuses it and
+					// the pool must stay as it was)
+					ts, tick = w.now-w.set.Interval, "backwards"
 				}
 			}
 			if tick == "aligned" {
@@ -808,4 +805,124 @@ func (w *World) yieldSwap() {
 		}
 	}
 	w.stats.Count("admit/yield-swap=unavailable")
+}
+
+// busyRefs: the outputs that the pool or the last block of node n already consume
+func (w *World) busyRefs(n *Node) map[string]bool {
+	busy := map[string]bool{}
+	for _, l := range [][]*ledger.Transaction{n.Pool.Transactions(), n.Chain.LastBlockTransactions()} {
+		for _, t := range l {
+			for _, in := range t.Inputs() {
+				busy[fmt.Sprintf("%s/%d", in.TransactionId(), in.OutputIndex())] = true
+			}
+		}
+	}
+	return busy
+}
+
+// hostTick: an aligned production tick of the host, the helpers follow
+func (w *World) hostTick() {
+	w.tickAll()
+	res := w.rec.Validate(w.now)
+	w.stats.Count("validate/aligned=" + res[:7])
+	for _, h := range w.helpers {
+		helperSync(h, w.now, []*Peer{honestPeer("10.0.0.1:10600", w.host)})
+	}
+}
+
+// swapStep (mode swap): drive the node towards order-dependent pooled pairs. When a wallet holds,
+// confirmed and not yet spent by the pool or the last block, a yielding output Y and a plain
+// output P: T1 turns Y into a plain output, T2 turns P into a yielding one; admitted in that order
+// both are pooled, and the tick that follows produces both or - when the shuffle tries T2 first,
+// whose fee computes but which cannot be applied (two incomes) - only T1. Otherwise a wallet is
+// given the two kinds of output and two ticks confirm them.
+func (w *World) swapStep() {
+	busy := w.busyRefs(w.host)
+	free := func(u *ledger.Utxo) bool { return !busy[fmt.Sprintf("%s/%d", u.TransactionId(), u.OutputIndex())] }
+	hasYield := map[string]bool{}
+	for _, wl := range w.wallets {
+		var y, p *spendable
+		for _, u := range w.host.Ureg.Utxos(wl.Addr) {
+			if u.IsYielding() {
+				hasYield[wl.Addr] = true
+			}
+			s := spendable{u.TransactionId(), u.OutputIndex(), u.Value(w.next(), w.set.HalfLife, w.set.Base, w.set.ILimit), wl}
+			if s.value <= w.set.Fee+2 || !free(u) {
+				continue
+			}
+			if u.IsYielding() && y == nil {
+				c := s
+				y = &c
+			} else if !u.IsYielding() && p == nil {
+				c := s
+				p = &c
+			}
+		}
+		if y == nil || p == nil {
+			continue
+		}
+		t1 := w.build(&txPlan{ins: []spendable{*y}, outs: []*JOutput{{wl.Addr, false, y.value - w.set.Fee - 1}}, ts: w.now})
+		t2 := w.build(&txPlan{ins: []spendable{*p}, outs: []*JOutput{{wl.Addr, true, p.value - w.set.Fee - 1}}, ts: w.now})
+		r1 := w.rec.Admit(t1)
+		r2 := w.rec.Admit(t2)
+		w.stats.Count("admit/yield-swap=" + r1 + "," + r2)
+		for _, h := range w.helpers {
+			h.Pool.AddTransaction(t1, "x", "y")
+			h.Pool.AddTransaction(t2, "x", "y")
+			h.Log.Take()
+		}
+		if w.r.Chance(1, 3) { // a third transaction in the same pool changes the shuffle
+			tx, kind := w.genTx(w.host)
+			w.stats.Count("admit/" + kind + "=" + w.rec.Admit(tx))
+		}
+		w.hostTick()
+		return
+	}
+	// nobody holds both kinds: give a wallet without income a yielding and a plain output
+	for _, t := range w.host.Pool.Transactions() {
+		for _, o := range t.Outputs() {
+			if o.IsYielding() {
+				hasYield[o.Address()] = true
+			}
+		}
+	}
+	for _, t := range w.host.Chain.LastBlockTransactions() {
+		for _, o := range t.Outputs() {
+			if o.IsYielding() {
+				hasYield[o.Address()] = true
+			}
+		}
+	}
+	for _, src := range w.wallets {
+		for _, u := range w.host.Ureg.Utxos(src.Addr) {
+			v := u.Value(w.next(), w.set.HalfLife, w.set.Base, w.set.ILimit)
+			if !free(u) || v <= 6*w.set.Fee+100 {
+				continue
+			}
+			var dst *Wallet
+			for k := 0; k < len(w.wallets); k++ {
+				c := w.wallets[(k+1+w.r.Intn(len(w.wallets)))%len(w.wallets)]
+				if !hasYield[c.Addr] || (c == src && u.IsYielding()) {
+					dst = c
+					break
+				}
+			}
+			if dst == nil {
+				continue
+			}
+			half := (v - w.set.Fee) / 2
+			tx := w.build(&txPlan{ins: []spendable{{u.TransactionId(), u.OutputIndex(), v, src}}, outs: []*JOutput{{dst.Addr, true, half}, {dst.Addr, false, v - w.set.Fee - half - 1}}, ts: w.now})
+			res := w.rec.Admit(tx)
+			w.stats.Count("admit/yield-swap-setup=" + res)
+			for _, h := range w.helpers {
+				h.Pool.AddTransaction(tx, "x", "y")
+				h.Log.Take()
+			}
+			w.hostTick()
+			w.hostTick()
+			return
+		}
+	}
+	w.stats.Count("admit/yield-swap=unavailable")
+	w.hostTick()
 }
